@@ -191,7 +191,7 @@ func NewEngine(p *Program, job *Job, stats *SolverStats, known map[string]map[st
 		job.VerdictTimeout = 60 * time.Second
 	}
 	if job.LoopBound == 0 {
-		job.LoopBound = 40
+		job.LoopBound = 128
 	}
 	if job.MaxPaths == 0 {
 		job.MaxPaths = 200000
